@@ -47,12 +47,67 @@ def r04_1(prog, out):
             b_key = any("BTreeSet" in c and c.endswith("first") for c in sb.calls)
             if (a_now and b_key) or (a_key and b_now):
                 guards.append((bb, t, a_now))
+        # the comparison may sit in a closure handed to Option::is_some_and / map_or(false, ..) on `expirations.first()`:
+        #   while self.expirations.first().is_some_and(|(deadline, _)| deadline.time() <= *time) { pop }
+        closure_guards = []
+        from mapstate import _bool_switches
+        for cbb, ct in bi.calls(lambda c: c.path.split("::")[-1] in ("is_some_and", "map_or", "is_none_or") and "Option" in c.path):
+            recv = sl.of(bid, ct.args[0])
+            if not any("BTreeSet" in c and c.endswith("first") for c in recv.calls):
+                continue
+            co = bi.trace(ct.args[-1])
+            if co.kind != "agg" or bi.agg_at(co.data).j.get("ak") != "closure":
+                continue
+            cid = prog.qual(b, bi.agg_at(co.data).j["def"])
+            ci = prog.info(cid)
+            if ci is None:
+                continue
+            for gbb, gt in ci.calls(lambda c: c.path.startswith("std::cmp::PartialOrd::") and c.path.split("::")[-1] in CMP):
+                ro = ci.trace(0)
+                if not (ro.kind == "call" and ro.data == gbb):
+                    continue              # the closure does not return the comparison itself
+                sa, sb = sl.of(cid, gt.args[0]), sl.of(cid, gt.args[1])
+                is_now = lambda S: any(r[0] == "upvar" or (r[0] == "param" and r[1] == bid and r[2] >= 2) for r in S.roots)
+                a_now, b_now = is_now(sa), is_now(sb)
+                a_key = any(r[0] == "param" and r[1] == cid and r[2] >= 2 for r in sa.roots)
+                b_key = any(r[0] == "param" and r[1] == cid and r[2] >= 2 for r in sb.roots)
+                if (a_now and b_key) or (a_key and b_now):
+                    closure_guards.append((cbb, ct, gt, a_now and not a_key))
+        if closure_guards and not guards:
+            ok_all = True
+            for cbb, ct, gt, now_first in closure_guards:
+                op = CMP[gt.callee.path.split("::")[-1]]
+                rel_true = RELS[op] if now_first else {FLIP[r] for r in RELS[op]}
+                n2 = ct.callee.path.split("::")[-1]
+                sws = _bool_switches(bi, ct.dest.local) if ct.dest is not None and ct.dest.is_local() else []
+                if n2 != "is_some_and" or len(sws) != 1:
+                    out.undecided(key, bi.loc(cbb), "deadline comparison wrapped in %s(): not modelled" % n2)
+                    ok_all = None
+                    continue
+                sw, tr, fa = sws[0]
+                pop_on_false = fa is not None and bi.cfg.can_reach(fa, e.bb, avoid={cbb})
+                pop_on_true = tr is not None and bi.cfg.can_reach(tr, e.bb, avoid={cbb})
+                if pop_on_false:
+                    ok_all = False
+                    out.violation(key, bi.loc(cbb), "a delivery can be taken off the schedule on the branch where the deadline test failed (or there is no entry)")
+                elif pop_on_true and "<" in rel_true:
+                    ok_all = False
+                    out.violation(key, bi.loc(cbb), "a delivery is expired on the branch where now < deadline is possible: messages are redelivered before their ack deadline",
+                                  ["comparison %s(%s) in %s" % (gt.callee.path.split("::")[-1], "now, deadline" if now_first else "deadline, now", prog.short(cid))])
+                elif not pop_on_true:
+                    ok_all = False
+                    out.violation(key, bi.loc(cbb), "the deadline comparison does not guard the pop")
+            if ok_all:
+                out.holds(key, bi.loc(closure_guards[0][0]), "the pop is only reachable when first().is_some_and(now >= deadline)")
+            guards = None
         # plain binary comparisons on Instants do not occur (Instant is not a primitive)
-        if not guards:
+        if guards is None:
+            pass
+        elif not guards:
             out.violation(key, bi.loc(e.bb), "deliveries are taken off the expiry schedule without comparing their deadline with the current time")
             continue
         ok_all = True
-        for gbb, t, now_first in guards:
+        for gbb, t, now_first in (guards or []):
             op = CMP[t.callee.path.split("::")[-1]]
             sw = b.blocks[t.target].term
             if sw.k != "switch":
@@ -75,7 +130,7 @@ def r04_1(prog, out):
             elif not (pop_on_true or pop_on_false):
                 ok_all = False
                 out.violation(key, bi.loc(gbb), "the deadline comparison does not guard the pop")
-        if ok_all:
+        if ok_all and guards:
             out.holds(key, bi.loc(guards[0][0]), "the pop is only reachable when now >= deadline")
         # callers: `now` is Instant::now() with no arithmetic
         root = b.root or bid
